@@ -18,13 +18,25 @@ Proof.
   - injection H as <- <-. reflexivity.
 Qed.
 
-Lemma settle1_measure s s' : settle1 s = Some s' -> S (measure s') = measure s.
+Lemma take_first_length l : forall b x bl, take_first l b = Some (x, bl) -> length b = S (length bl).
+Proof.
+  induction b as [|y t IH]; intros x bl H; cbn [take_first] in H; [discriminate|].
+  destruct (Nat.eqb (fst y) l).
+  - injection H as <- <-. reflexivity.
+  - destruct (take_first l t) as [[z r]|] eqn:E; [|discriminate].
+    injection H as <- <-. cbn [length]. f_equal. exact (IH _ _ eq_refl).
+Qed.
+
+Lemma settle1_measure s s' : settle1 s = Some s' -> (measure s' < measure s)%nat.
 Proof.
   unfold settle1, measure. destruct (ms_pending s) as [|[l c] rest] eqn:P.
   - destruct (next_accept [] (ms_backlog s)) as [[x bl]|] eqn:E; [|discriminate].
     intros H; injection H as <-. cbn. apply next_accept_length in E. lia.
   - destruct (0 <? ms_permits s).
-    + destruct (mem_nat c (ms_gone s)); intros H; injection H as <-; cbn; lia.
+    + destruct (mem_nat c (ms_gone s)).
+      * destruct (take_first l (ms_backlog s)) as [[x bl]|] eqn:E; intros H; injection H as <-; cbn; [|lia].
+        rewrite app_length. cbn. apply take_first_length in E. lia.
+      * intros H; injection H as <-; cbn; lia.
     + destruct (next_accept ((l, c) :: rest) (ms_backlog s)) as [[x bl]|] eqn:E; [|discriminate].
       intros H; injection H as <-. cbn. rewrite app_length. cbn. apply next_accept_length in E. lia.
 Qed.
@@ -36,8 +48,9 @@ Proof.
     intros H; injection H as <-. exact C.
   - destruct (0 <? ms_permits s) eqn:Q.
     + apply N.ltb_lt in Q.
-      destruct (mem_nat c (ms_gone s)); intros H; injection H as <-; cbn; [exact C|].
-      rewrite app_length. cbn. lia.
+      destruct (mem_nat c (ms_gone s)).
+      * destruct (take_first l (ms_backlog s)) as [[x bl]|]; intros H; injection H as <-; exact C.
+      * intros H; injection H as <-; cbn. rewrite app_length. cbn. lia.
     + destruct (next_accept _ (ms_backlog s)) as [[x bl]|]; [|discriminate].
       intros H; injection H as <-. exact C.
 Qed.
@@ -96,7 +109,7 @@ Proof.
       destruct (ms_pending s) as [|[l w] rest].
       * destruct (next_accept [] (ms_backlog s)) as [[x bl]|]; [discriminate|reflexivity].
       * destruct (0 <? ms_permits s).
-        -- destruct (mem_nat w (ms_gone s)); discriminate.
+        -- destruct (mem_nat w (ms_gone s)); [destruct (take_first l (ms_backlog s)) as [[x bl]|]|]; discriminate.
         -- destruct (next_accept ((l, w) :: rest) (ms_backlog s)) as [[x bl]|]; [discriminate|reflexivity].
 Qed.
 
@@ -126,7 +139,7 @@ Proof.
     destruct (next_accept [] (ms_backlog s)) as [[x bl]|] eqn:E; [discriminate|].
     destruct (ms_backlog s) as [|y t]; [reflexivity|].
     pose proof (next_accept_none_busy [] _ E y (or_introl eq_refl)) as B. discriminate B.
-  - rewrite P in Q. destruct (mem_nat c (ms_gone s)); discriminate.
+  - rewrite P in Q. destruct (mem_nat c (ms_gone s)); [destruct (take_first l (ms_backlog s)) as [[x bl]|]|]; discriminate.
 Qed.
 
 (* a connection left in a backlog belongs to a listener that is inside acquire() *)
@@ -138,7 +151,7 @@ Proof.
   - destruct (next_accept [] (ms_backlog s)) as [[y bl]|] eqn:E; [discriminate|].
     exact (next_accept_none_busy [] _ E x Hin).
   - destruct (0 <? ms_permits s).
-    + destruct (mem_nat c (ms_gone s)); discriminate.
+    + destruct (mem_nat c (ms_gone s)); [destruct (take_first l (ms_backlog s)) as [[y bl]|]|]; discriminate.
     + destruct (next_accept ((l, c) :: rest) (ms_backlog s)) as [[y bl]|] eqn:E; [discriminate|].
       exact (next_accept_none_busy _ _ E x Hin).
 Qed.
@@ -150,8 +163,9 @@ Proof.
   - destruct (next_accept [] (ms_backlog s)) as [[y bl]|]; [|discriminate].
     intros H; injection H as <-. auto.
   - destruct (0 <? ms_permits s).
-    + destruct (mem_nat c (ms_gone s)); intros H; injection H as <-; cbn; auto.
-      intros Hin. apply in_or_app. now left.
+    + destruct (mem_nat c (ms_gone s)).
+      * destruct (take_first l (ms_backlog s)) as [[y bl]|]; intros H; injection H as <-; cbn; auto.
+      * intros H; injection H as <-; cbn. intros Hin. apply in_or_app. now left.
     + destruct (next_accept _ (ms_backlog s)) as [[y bl]|]; [|discriminate].
       intros H; injection H as <-. auto.
 Qed.
@@ -173,4 +187,49 @@ Proof.
   { unfold settle1, s1. cbn [ms_pending ms_permits ms_gone ms_active ms_backlog]. rewrite P, Z, G. reflexivity. }
   unfold settle_fuel. cbn [settle]. rewrite E. apply settle_active_mono. cbn [ms_active].
   apply in_or_app. right. now left.
+Qed.
+
+(* ---- the general form: the freed slot goes to the first connection in the line whose
+        client is still there, however many before it have gone away meanwhile ---- *)
+Lemma settle_serves_first_live :
+  forall pre s fuel l w post,
+    ms_pending s = pre ++ (l, w) :: post ->
+    Forall (fun x => mem_nat (snd x) (ms_gone s) = true) pre ->
+    mem_nat w (ms_gone s) = false ->
+    0 < ms_permits s ->
+    (length pre < fuel)%nat ->
+    In w (ms_active (settle fuel s)).
+Proof.
+  induction pre as [|[l0 c0] pre IH]; intros s fuel l w post P G W Q F;
+    (destruct fuel as [|f]; [cbn in F; lia|]); cbn [settle].
+  - cbn [app] in P.
+    assert (E : settle1 s = Some (mkMS (ms_permits s - 1) (ms_active s ++ [w]) post (ms_backlog s) (ms_gone s))).
+    { unfold settle1. rewrite P. apply N.ltb_lt in Q. rewrite Q, W. reflexivity. }
+    rewrite E. apply settle_active_mono. cbn [ms_active]. apply in_or_app. right. now left.
+  - cbn [app] in P. inversion G as [|x xs G0 G1]; subst. cbn [snd] in G0.
+    pose proof Q as Q'. apply N.ltb_lt in Q'.
+    destruct (take_first l0 (ms_backlog s)) as [[x bl]|] eqn:T.
+    + assert (E : settle1 s = Some (mkMS (ms_permits s) (ms_active s) ((pre ++ (l, w) :: post) ++ [x]) bl (ms_gone s))).
+      { unfold settle1. rewrite P, Q', G0, T. reflexivity. }
+      rewrite E. apply (IH _ f l w (post ++ [x])); cbn [ms_pending ms_gone ms_permits]; try assumption.
+      * rewrite <- app_assoc. reflexivity.
+      * cbn [length] in F. lia.
+    + assert (E : settle1 s = Some (mkMS (ms_permits s) (ms_active s) (pre ++ (l, w) :: post) (ms_backlog s) (ms_gone s))).
+      { unfold settle1. rewrite P, Q', G0, T. reflexivity. }
+      rewrite E. apply (IH _ f l w post); cbn [ms_pending ms_gone ms_permits]; try assumption.
+      * reflexivity.
+      * cbn [length] in F. lia.
+Qed.
+
+Lemma m_first_live_is_served_on_exit s c why pre l w post :
+  mem_nat c (ms_active s) = true ->
+  ms_pending s = pre ++ (l, w) :: post ->
+  Forall (fun x => mem_nat (snd x) (ms_gone s) = true) pre ->
+  mem_nat w (ms_gone s) = false ->
+  In w (ms_active (ms_step s (MEnd c why))).
+Proof.
+  intros M P G W. cbn [ms_step]. rewrite M.
+  apply (settle_serves_first_live pre _ _ l w post); cbn [ms_pending ms_gone ms_permits ms_backlog]; try assumption.
+  - lia.
+  - unfold settle_fuel. cbn [ms_pending ms_backlog]. rewrite P, app_length. cbn [length]. lia.
 Qed.
